@@ -188,7 +188,7 @@ class TBRMMDesignParameters:
     test_ok = specified and testf(value, bound)
     if not test_ok:
       raise ValueError('{} must be {} {}'.format(attr, op, bound))
-    if isinstance(bound, int) and int(value) != value:
+    if isinstance(bound, int) and value % 1 != 0:
       raise ValueError('{} must be an integer'.format(attr))
 
   def _test_value_within_bounds(self, lower, op1, attr, op2, upper):
@@ -224,7 +224,7 @@ class TBRMMDesignParameters:
       inv_op1 = self._inverse_op[op1]
       template = '{} must be {} {} and {} {}'
       raise ValueError(template.format(attr, inv_op1, lower, op2, upper))
-    if isinstance(lower, int) and int(value) != value:
+    if isinstance(lower, int) and value % 1 != 0:
       raise ValueError('{} must be an integer'.format(attr))
 
   def _test_range(self, lower, op1, attr_op, op2, upper):
@@ -267,8 +267,8 @@ class TBRMMDesignParameters:
           template = 'Lower bound of {} must be {} upper bound'
           raise ValueError(template.format(attr, op3))
         elif (isinstance(lower, int) and
-              (int(lower_range) != lower_range or
-               int(upper_range) != upper_range)):
+              (lower_range % 1 != 0 or
+               upper_range % 1 != 0)):
           raise ValueError('{} must be integers'.format(attr))
       else:
         inv_op1 = self. _inverse_op[op1]
